@@ -97,6 +97,17 @@ def run(ctx):
         ('G-sim-saturate-naive', 30, 600, dict(saturate='naive')),
     ], known=known)
     st = collections.Counter(out['dist'])
+    # contended priority runs with preemption (suspensions are commands the executor may refuse)
+    for i in range(ctx.budget(80, 1500)):
+        rng = ctx.case_rng('G-sim-preempt', i)
+        recipe = S.gen_preempt(rng)
+        case, run_ = S.drive(recipe, MASK)
+        out['cases'].append(case)
+        SP.stats_of(run_, st)
+        st['runs_with_suspension'] += any(d['susp'] for d in run_.ticks)
+        for desc in monitor(run_):
+            out['hits'].append(dict(desc=desc, signature=known(run_, desc) or 'valid-config-raises', recipe=recipe,
+                                    gen='G-sim-preempt'))
     for i in range(ctx.budget(150, 3000)):
         rng = ctx.case_rng('G-sim-extreme', i)
         recipe = gen_extreme(rng)
